@@ -53,6 +53,7 @@ class PipeCore(object):
         self.last_timeouts = []
         self.defer = False        # explicit device steps: complete host frames wait in h2d_q until dev_recv()
         self.h2d_q = []
+        self.eof_mode = False
         self.force_timeout = False   # scheduler: let the parked reader time out now (virtual time passes)
 
     # ---- helpers
@@ -72,6 +73,7 @@ class PipeCore(object):
             if f == 'reset':
                 raise SimReset('injected reset at call %d (%s)' % (k, kind))
             if f == 'eof':
+                self.eof_mode = True           # end of stream: every read from now on is empty
                 if kind == 'bulk_read':
                     return 'eof'
                 raise SimReset('injected eof at call %d (%s)' % (k, kind))
@@ -84,6 +86,7 @@ class PipeCore(object):
         self.cur_meta = None
         self.hbuf = bytearray()
         self.hwho = set()
+        self.eof_mode = False
         self.connected = True
         self.rec.ev('conn', timeout=timeout)
 
@@ -99,7 +102,8 @@ class PipeCore(object):
     def read(self, n, timeout):
         r = self._call('bulk_read', (n, timeout))
         self.last_timeouts.append(timeout)
-        if r == 'eof':
+        if r == 'eof' or self.eof_mode:
+            self.clock.advance(self.default_timeout if timeout is None else max(timeout, 0.001))
             return b''
         if not self.connected:
             raise SimReset('not connected')
